@@ -11,10 +11,10 @@ CONSTANTS
   MaxResults = 1
   KindSet = {"ok", "ne"}
   BuCap = 1
-  FixF34 = FALSE
+  FixF34 = TRUE
   GenHist = FALSE
 INIT Init
 NEXT Next
 INVARIANTS TypeOK OneFinal AfterSuccess Justified ModeAttempts AttemptsBoundedPipe
-PROPERTIES AfterFinalSilent NoAttemptAfterSuccess NoResendAfterSend NoDecideRetryAfterNR SendRetriesBounded
+PROPERTIES AfterFinalSilent NoAttemptAfterSuccess NoResendAfterSend NoRetryAfterNR SendRetriesBounded
 CHECK_DEADLOCK FALSE
